@@ -55,6 +55,8 @@ const (
 	pStruct
 	pTypedNil
 	pNil
+	pWrapsAbort // an ordinary error value that merely wraps http.ErrAbortHandler: not the sentinel itself
+	pIsAbort    // an error whose Is method claims to match the sentinel
 	numPanicKinds
 	// pAbort is http.ErrAbortHandler: the statement makes no promise about such a request itself, but it is part of
 	// the history the following requests must be unaffected by
@@ -83,7 +85,7 @@ func (b behaviour) String() string {
 		}
 		kind := "http.ErrAbortHandler"
 		if b.panicKind < numPanicKinds {
-			kind = []string{"", "string", "error", "int", "struct", "typed-nil", "nil"}[b.panicKind]
+			kind = []string{"", "string", "error", "int", "struct", "typed-nil", "nil", "error-wrapping-ErrAbortHandler", "error-whose-Is-matches-ErrAbortHandler"}[b.panicKind]
 		}
 		s += fmt.Sprintf(" panic(%s %q/%d) %s writing", kind, b.pstr, b.pint, when)
 	}
@@ -102,9 +104,18 @@ func (b behaviour) panicValue() any {
 		return pstruct{b.pint, b.pstr}
 	case pTypedNil:
 		return (*pstruct)(nil)
+	case pWrapsAbort:
+		return fmt.Errorf("%s: %w", b.pstr, http.ErrAbortHandler)
+	case pIsAbort:
+		return claimsAbort{b.pstr}
 	}
 	return nil
 }
+
+type claimsAbort struct{ msg string }
+
+func (c claimsAbort) Error() string        { return c.msg }
+func (c claimsAbort) Is(target error) bool { return target == http.ErrAbortHandler }
 
 // panicNode is the attribute the Error record must carry, in terms of the shared log models.
 func (b behaviour) panicNode() lm.Node {
@@ -119,6 +130,10 @@ func (b behaviour) panicNode() lm.Node {
 		return lm.Node{Key: "panic", Kind: lm.KStruct} // composite: compared through its own encoding below
 	case pTypedNil:
 		return lm.Node{Key: "panic", Kind: lm.KNilPtr}
+	case pWrapsAbort:
+		return lm.Node{Key: "panic", Kind: lm.KError, S: b.pstr + ": " + http.ErrAbortHandler.Error()}
+	case pIsAbort:
+		return lm.Node{Key: "panic", Kind: lm.KError, S: b.pstr}
 	default:
 		return lm.Node{Key: "panic", Kind: lm.KError, S: panicNilText}
 	}
@@ -578,13 +593,16 @@ func TestBatches(t *testing.T) {
 				continue
 			}
 			if rq.matched && rq.b.panicKind != pNone {
-				ev.Label("panic:" + []string{"", "string", "error", "int", "struct", "typed-nil", "nil"}[rq.b.panicKind])
+				ev.Label("panic:" + []string{"", "string", "error", "int", "struct", "typed-nil", "nil", "error-wrapping-ErrAbortHandler", "error-whose-Is-matches-ErrAbortHandler"}[rq.b.panicKind])
 				if !rq.b.panicBefore && (rq.b.status != 0 || rq.b.body) {
 					ev.Label("panic_after_partial_response")
 					nt = true
 				}
 				if rq.b.panicKind != pString {
 					nt = true
+				}
+				if rq.b.panicKind == pWrapsAbort || rq.b.panicKind == pIsAbort {
+					ev.Label("panic_value_related_to_ErrAbortHandler_but_not_it")
 				}
 			}
 			if !rq.matched {
